@@ -188,12 +188,12 @@ func (c *Channel) Close() error {
 	util.Yield("chan.close.entry")
 
 	if !c.closed.CompareAndSwap(false, true) {
-		// already closed (or being closed) -- closing a second time must not panic on the already
-		// closed Errs channel, there is nothing left to do.
+		// already closed (or being closed), there is nothing left to do.
 		return nil
 	}
 
-	close(c.Errs)
+	// note that Errs is deliberately *not* closed: the read loop may be about to (or blocked trying
+	// to) hand over a transport error, and a send on a closed channel panics in that goroutine.
 
 	ch := make(chan struct{})
 
